@@ -123,7 +123,10 @@ func dstName(r *hlib.Rng, cols []genCol, malformed bool) string {
 
 type instrNode struct {
 	goI   qframe.Instruction
-	coqFn func() string
+	// complete evaluates the (pure) function on every physical cell of its source column(s) in the given dumps,
+	// so that the specification can look up the value for the RIGHT cell even if the implementation passed a wrong one
+	complete func(ds ...qframe.VerifFrame)
+	coqFn    func() string
 	dst   string
 	src1  string
 	src2  string
@@ -399,9 +402,22 @@ func genInstr(r *hlib.Rng, cols []genCol, avail *[]genCol, malformed bool) instr
 				fn = func(x *string) *string { return mk(x).(*string) }
 			}
 		}
+		n.complete = func(ds ...qframe.VerifFrame) {
+			for _, d := range ds {
+				for _, c := range d.Columns {
+					if c.Name != src {
+						continue
+					}
+					for _, x := range physCells(c, tin) {
+						mk(x)
+					}
+				}
+			}
+		}
 		if malformed && r.Chance(1, 8) {
 			fn = func(x, y, z int) int { return 0 }
 			n.coqFn = func() string { return "FOther" }
+			n.complete = nil
 		} else {
 			n.coqFn = func() string {
 				return "(F1 " + ctypeName(tin) + " " + ctypeName(tout) + " " + hlib.List(dedup(rec)) + ")"
@@ -453,6 +469,38 @@ func genInstr(r *hlib.Rng, cols []genCol, avail *[]genCol, malformed bool) instr
 				return v
 			}
 		}
+		n.complete = func(ds ...qframe.VerifFrame) {
+			for _, d := range ds {
+				var c1, c2 *qframe.VerifColumn
+				for i := range d.Columns {
+					if d.Columns[i].Name == s1 {
+						c1 = &d.Columns[i]
+					}
+					if d.Columns[i].Name == s2 {
+						c2 = &d.Columns[i]
+					}
+				}
+				if c1 == nil || c2 == nil {
+					continue
+				}
+				x, y := physCells(*c1, t), physCells(*c2, t)
+				if x == nil || y == nil || len(x) != len(y) {
+					continue
+				}
+				for i := range x {
+					switch f := fn.(type) {
+					case func(int, int) int:
+						f(x[i].(int), y[i].(int))
+					case func(float64, float64) float64:
+						f(x[i].(float64), y[i].(float64))
+					case func(bool, bool) bool:
+						f(x[i].(bool), y[i].(bool))
+					case func(*string, *string) *string:
+						f(x[i].(*string), y[i].(*string))
+					}
+				}
+			}
+		}
 		n.coqFn = func() string { return "(F2 " + ctypeName(t) + " " + hlib.List(dedup(rec)) + ")" }
 		n.goI = qframe.Instruction{Fn: fn, DstCol: n.dst, SrcCol1: s1, SrcCol2: s2}
 		n.desc = fmt.Sprintf("%s := fn2[%s](%s,%s)", n.dst, t, s1, s2)
@@ -493,6 +541,40 @@ func upperTable(ds ...qframe.VerifFrame) string {
 	return hlib.List(it)
 }
 
+// physCells returns the physical cells of a dumped column as Go values of the wanted function kind (nil if the
+// column is of another kind).
+func physCells(c qframe.VerifColumn, kind string) []interface{} {
+	var out []interface{}
+	switch {
+	case c.Kind == "int" && kind == "int":
+		for _, v := range c.Ints {
+			out = append(out, v)
+		}
+	case c.Kind == "float" && kind == "float":
+		for _, v := range c.Floats {
+			out = append(out, v)
+		}
+	case c.Kind == "bool" && kind == "bool":
+		for _, v := range c.Bools {
+			out = append(out, v)
+		}
+	case c.Kind == "string" && (kind == "string" || kind == "enum"):
+		for _, v := range c.Strings {
+			out = append(out, cp(v))
+		}
+	case c.Kind == "enum" && (kind == "string" || kind == "enum"):
+		for _, rk := range c.Ranks {
+			if rk == 255 || int(rk) >= len(c.Values) {
+				out = append(out, (*string)(nil))
+			} else {
+				v := c.Values[rk]
+				out = append(out, &v)
+			}
+		}
+	}
+	return out
+}
+
 func applyCase(r *hlib.Rng, s *hlib.Suite) {
 	qf, cols := genFrame(r, nil)
 	qf, hist := derive(r, qf, cols, s)
@@ -511,9 +593,13 @@ func applyCase(r *hlib.Rng, s *hlib.Suite) {
 		goI[i] = instrs[i].goI
 		descs[i] = instrs[i].desc
 	}
+	var dumps []qframe.VerifFrame
 	coqIs := func() string {
 		it := make([]string, k)
 		for i := range instrs {
+			if instrs[i].complete != nil {
+				instrs[i].complete(dumps...)
+			}
 			it[i] = instrs[i].coq()
 		}
 		return hlib.List(it)
@@ -528,6 +614,8 @@ func applyCase(r *hlib.Rng, s *hlib.Suite) {
 		cl := genClause(r, cols, 2, malformed && r.Chance(1, 2))
 		desc := map[string]interface{}{"op": "filteredapply", "clause": cl.String(), "instructions": descs, "derivation": hist, "props": []string{"C01", "C06", "C10", "C02"}}
 		if od, ok := runOp(s, qf, desc, func() qframe.QFrame { return qf.FilteredApply(cl.goClause(), goI...) }); ok {
+			dumps = []qframe.VerifFrame{in, od}
+			cl.complete(in)
 			s.Count("filteredapply")
 			s.Add(fmt.Sprintf("FFilteredApply %s %s %s %s %s %s", coqFrame(in), matcherTable(cl, in), upperTable(in, od), cl.coq(), coqIs(), coqFrame(od)), desc, nontrivial)
 		}
@@ -541,6 +629,7 @@ func applyCase(r *hlib.Rng, s *hlib.Suite) {
 	default:
 		desc := map[string]interface{}{"op": "apply", "instructions": descs, "derivation": hist, "props": allProps}
 		if od, ok := runOp(s, qf, desc, func() qframe.QFrame { return qf.Apply(goI...) }); ok {
+			dumps = []qframe.VerifFrame{in, od}
 			s.Count(fmt.Sprintf("apply-%d-instr", k))
 			if od.HasErr {
 				s.Count("apply-err")
